@@ -3,8 +3,8 @@ spec/Merkle.tla, table "c07"; driver vd-merkle c07.
   1. TLC, exhaustive over (verifier, n, m) x the mutation menu: the transcribed verifiers accept every honest proof,
      the repaired variant is sound and complete (accepted <=> the claim is true AND the proof is the audit path /
      consistency proof that belongs to it, both read off the root term by the monitors SubAt / PrefixRoot / Siblings /
-     RefSub / Desc), and the verifiers AS CODED are sound except for exactly one named deviation: the consistency
-     shortcut `old_root == new_root` taken before the sizes are compared.
+     RefSub / Desc); the variant of VerifyConsistency as it was coded before fix c963b88 (shortcut `old_root == new_root`
+     taken before the sizes are compared) is kept as a named deviation: TLC shows it is the ONLY unsoundness of the old code.
   2. P-TABLE: every (claim, mutated proof) row is concretized with the real SHA-256 over random distinct leaves and
      given to the real VerifyLeafHashInclusion / VerifyLeafInclusion / VerifyConsistency / MerkleProve.
      Monitor: real verifier accepts => row.truth (claim true and proof = the proof of that claim).  Differences from the
@@ -25,6 +25,7 @@ def run(ctx):
     if rep:
         runs = [(rep["cfg"], None)]
     total = distinct = 0
+    ctx.cov["table_rows"] = 0
     for cfg, files in runs:
         rows, pools = table(ctx, cfg, files=files, timeout=2400)
         if rep:
@@ -38,6 +39,7 @@ def run(ctx):
         if not s:
             ctx.fail("driver printed no summary")
         total += s["rows"]
+        ctx.cov["table_rows"] += s["rows"]
         distinct += s["distinct"]
         ctx.note("%s: %s" % (cfg, s["counts"]))
         for o in out:
@@ -55,10 +57,7 @@ def run(ctx):
             elif f == "honest-rejected":
                 ctx.note("DRIFT: honest %s proof rejected by the real verifier (C06's concern): %s" % (o["v"], o["job"]))
             elif f == "drift":
-                ctx.note("DRIFT (sound): real=%s spec=%s %s %s" % (o["real_accepted"], o["spec_acc"], o["v"], o["mut"]))
-        if s["counts"].get("matches-repaired-variant"):
-            ctx.note("the real VerifyConsistency behaves like the repaired variant (shortcut only for equal sizes) on %d rows"
-                     % s["counts"]["matches-repaired-variant"])
+                ctx.note("DRIFT (sound): real=%s spec=%s %s %s" % (o["real_accepted"], o["spec_strict"], o["v"], o["mut"]))
         ctx.sample({"row": rows[len(rows) // 3]["v"]})
         del rows, pools, out
     ctx.cov["evaluations"] = total
